@@ -184,6 +184,26 @@ func (s *Solver) solve(o *Obligation, expectSat bool) *SolveResult {
 			res.Status, res.Backend, res.Output, res.Secs = "unsat", b, out, secs
 			return res
 		}
+		// stage 0b: the same query without any quantified hypothesis (prelude axioms included). Still a weaker hypothesis
+		// set, so unsat is a proof; it is what decides goals that are pure (nonlinear) arithmetic at the Skolem index,
+		// where the quantified axioms only feed the instantiation engine
+		var qf []string
+		dropped := false
+		for _, line := range strings.Split(gtext, "\n") {
+			if strings.HasPrefix(line, "(assert") && (strings.Contains(line, "(forall (") || strings.Contains(line, "(exists (")) {
+				dropped = true
+				continue
+			}
+			qf = append(qf, line)
+		}
+		if dropped {
+			qfile := strings.TrimSuffix(file, ".smt2") + "_qf.smt2"
+			os.WriteFile(qfile, []byte(strings.Join(qf, "\n")), 0o644)
+			if st, b, out, secs := race(qfile, s.quickT); st == "unsat" {
+				res.Status, res.Backend, res.Output, res.Secs = "unsat", b, out, secs
+				return res
+			}
+		}
 	}
 	st, b, out, secs := race(file, s.fullT)
 	res.Status, res.Backend, res.Output, res.Secs = st, b, out, secs
